@@ -86,6 +86,8 @@ class Ctx:
 def run(F, R, tier):
     S = D.spec()
     duke = F.crate("duke")
+    global _DUKE
+    _DUKE = duke
     cx = Ctx(duke)
     r02_1(cx, R, S)
     r02_2_3(cx, R, S)
@@ -139,6 +141,55 @@ def full_main(cx, wb, keep=None):
     return out
 
 
+def _is_structure_ref(cx, ref):
+    """A call that stands for a sub-structure the reader also has a function for (write_x <-> read_x) stays a reference;
+    any other private helper of the writer is only a piece of its caller's layout and is expanded in place."""
+    if ref.get("ty"):
+        return True
+    nm = U.norm_fn_name(ref["name"])
+    if nm == "":
+        return True
+    return cx.rfn("read_" + nm) is not None or any(b.get("name") == "read_" + nm and b["key"].startswith(RD) for b in cx.duke.bodies)
+
+
+def expand_helper_refs(cx, items, via=None, depth=0):
+    """Replace calls of private helper functions by the helper's layout. Expanded items carry `site` = the call node in the
+    function under analysis (their own nodes live in the helper)."""
+    out = []
+    for it in items:
+        i = it.get("i")
+        if i == "ref" and depth < 3 and not _is_structure_ref(cx, it):
+            body = cx.expand_w(it)
+            if body is not None:
+                site = via or it["node"]
+                out.extend(expand_helper_refs(cx, body, site, depth + 1))
+                continue
+        if i == "if":
+            it = dict(it, then=expand_helper_refs(cx, it["then"], via, depth), **{"else": expand_helper_refs(cx, it["else"], via, depth)})
+        elif i in ("rep", "loop"):
+            it = dict(it, body=expand_helper_refs(cx, it["body"], via, depth))
+        elif i == "match":
+            it = dict(it, arms=[(a, expand_helper_refs(cx, x, via, depth)) for (a, x) in it["arms"]])
+        elif via is not None:
+            it = dict(it)
+        if via is not None:
+            it["site"] = via
+        out.append(it)
+    return out
+
+
+def site_of(it):
+    return it.get("site") or it.get("node")
+
+
+def attr_items(cx, wb):
+    """(extractor, attribute buffer id, its items with helper calls expanded) of an attribute-block writer."""
+    ex, lays = cx.lay(wb, "w")
+    exp = {b: expand_helper_refs(cx, items) for b, items in lays.items()}
+    ab, aitems = attr_buffer(ex, exp)
+    return ex, ab, aitems
+
+
 def attr_buffer(ex, lays):
     """(buffer id, items) of the local buffer the attribute headers go to."""
     for b, items in lays.items():
@@ -173,18 +224,18 @@ def emissions(items, inrep=False, conds=()):
         it = items[i]
         k = it.get("i")
         if k == "attr":
-            out.append({"kind": "measured", "name": it["name"], "body": it["body"], "node": it["node"], "inrep": inrep, "item": it})
+            out.append({"kind": "measured", "name": it["name"], "body": it["body"], "node": it["node"], "site": site_of(it), "inrep": inrep, "item": it})
         elif k == "attrhdr":
             body = []
             j = i + 1
             while j < len(items) and items[j].get("i") not in ("attr", "attrhdr", "if", "rep", "match") and not _manual_at(items, j):
                 body.append(items[j])
                 j += 1
-            out.append({"kind": "fixed", "name": it["name"], "n": it["n"], "body": body, "node": it["node"], "inrep": inrep, "item": it})
+            out.append({"kind": "fixed", "name": it["name"], "n": it["n"], "body": body, "node": it["node"], "site": site_of(it), "inrep": inrep, "item": it})
             i = j
             continue
         elif _manual_at(items, i):
-            out.append({"kind": "manual", "name": it.get("strconst"), "body": [items[i + 2]], "node": it["node"], "inrep": inrep,
+            out.append({"kind": "manual", "name": it.get("strconst"), "body": [items[i + 2]], "node": it["node"], "site": site_of(it), "inrep": inrep,
                         "hdr": items[i:i + 3], "item": it})
             i += 3
             continue
@@ -197,7 +248,7 @@ def emissions(items, inrep=False, conds=()):
         elif k == "rep":
             out.extend(emissions(it["body"], True, conds))
         else:
-            out.append({"kind": "stray", "name": None, "body": [it], "node": it.get("node"), "inrep": inrep, "item": it})
+            out.append({"kind": "stray", "name": None, "body": [it], "node": it.get("node"), "site": site_of(it), "inrep": inrep, "item": it})
         i += 1
     return out
 
@@ -375,8 +426,7 @@ def r02_1(cx, R, S):
         rb, wb = cx.rfn(rn), cx.wfn(wn)
         if not (rb and wb):
             continue
-        ex, lays = cx.lay(wb, "w")
-        ab, aitems = attr_buffer(ex, lays)
+        ex, ab, aitems = attr_items(cx, wb)
         table, hdr, _rep = reader_dispatch(cx, rb)
         if not (R.anchor("R02.1", "attribute buffer of %s" % wn, aitems is not None, sp=wb["sp"]) and
                 R.anchor("R02.1", "attribute dispatch of %s" % rn, table is not None, sp=rb["sp"])):
@@ -601,6 +651,23 @@ def _count_matches(ex, rep):
     arg = H.peel(cnt["len"], tries=True)
     if rep.get("filtered"):
         l = H.local_of(arg)
+        src = H.let_init_of(ex.fn["body"], l[0]) if l else arg
+        chain = H.peel(src, casts=True, tries=True) if src is not None else {}
+        if chain.get("k") == "mcall" and chain["name"] == "count":
+            # COLL.iter().filter(|x| x.F.is_some()).count()
+            f_ = H.peel(chain["recv"])
+            if f_.get("k") == "mcall" and f_["name"] == "filter" and f_["args"] and H.peel(f_["args"][0]).get("k") == "closure":
+                cl = H.peel(f_["args"][0])
+                body = U._tail_expr(cl["body"]) or {}
+                fld = None
+                if body.get("k") == "mcall" and body["name"] == "is_some":
+                    fld, _rest = U._place_field(body["recv"])
+                base = H.peel(f_["recv"])
+                only_iter = True
+                while base.get("k") == "mcall" and base["name"] in ("iter", "into_iter"):
+                    base = H.peel(base["recv"])
+                return (fld == rep["filtered"] and _place_key(base) == _place_key(over)), \
+                    "count must be the number of elements of the iterated collection with `%s` present (found filter on `%s`)" % (rep["filtered"], fld)
         if not l:
             return False, "filtered loop needs a counted local"
         incs = [n for n in H.walk(ex.fn["body"]) if n.get("k") == "assignop" and H.local_of(n["l"]) and H.local_of(n["l"])[0] == l[0]]
@@ -647,8 +714,7 @@ def r02_2_3(cx, R, S):
         wb = cx.wfn(wn)
         if not R.anchor("R02.3", "fn " + wn, wb):
             continue
-        ex, lays = cx.lay(wb, "w")
-        ab, aitems = attr_buffer(ex, lays)
+        ex, ab, aitems = attr_items(cx, wb)
         if not R.anchor("R02.3", "attribute buffer of " + wn, aitems is not None, sp=wb["sp"]):
             continue
         ems = [e for e in emissions(aitems) if e["kind"] != "stray"]
@@ -665,8 +731,8 @@ def r02_2_3(cx, R, S):
                     else:
                         bad.append(U.show([it]))
                 # the body must stay inside the block of the header
-                blk = _enclosing_block(ex, em["node"])
-                same_blk = all(_enclosing_block(ex, it["node"]) is blk for it in em["body"])
+                blk = _enclosing_block(ex, em["site"])
+                same_blk = all(_enclosing_block(ex, site_of(it)) is blk for it in em["body"])
                 n = em["n"]
                 R.inst("R02.2", "fix-length:%s:%s" % (loc, nm), isinstance(n, int) and not bad and sum(widths) == n and same_blk, sp=sp,
                        expect="%s bytes after the header" % (n,), got="%s = %d bytes%s" % (U.show(em["body"]), sum(widths), (" + " + ",".join(bad)) if bad else ""))
@@ -709,7 +775,7 @@ def r02_2_3(cx, R, S):
                got=[H.render(x) for x in other] or None, nontrivial=False)
         by_block = {}
         for em in ems:
-            blk = _enclosing_block(ex, em["node"])
+            blk = _enclosing_block(ex, em["site"])
             by_block.setdefault(id(blk), {"blk": blk, "ems": [], "incs": []})["ems"].append(em)
         for n in incs:
             blk = _enclosing_block(ex, n)
@@ -730,7 +796,7 @@ def r02_2_3(cx, R, S):
         # order: the count is written after every emission (evaluation order of the function)
         order = [id(it.get("node")) for (_b, it) in U.flat_events(ex.events)]
         cpos = order.index(id(wi[-2]["node"])) if id(wi[-2]["node"]) in order else -1
-        late = [e for e in ems if id(e["node"]) in order and order.index(id(e["node"])) > cpos]
+        late = [e for e in ems if id(e["site"]) in order and order.index(id(e["site"])) > cpos]
         R.inst("R02.3", "count-after-last-attribute:%s" % loc, cpos >= 0 and not late, sp=wb["sp"],
                got=[e["name"] for e in late] or None)
 
@@ -889,8 +955,7 @@ def r02_4(cx, R, S):
         rb, wb = cx.rfn(rn), cx.wfn(wn)
         if not (rb and wb):
             continue
-        ex, lays = cx.lay(wb, "w")
-        ab, aitems = attr_buffer(ex, lays)
+        ex, ab, aitems = attr_items(cx, wb)
         table, hdr, _rep = reader_dispatch(cx, rb)
         if aitems is None or table is None:
             continue
@@ -931,12 +996,19 @@ INT_RANGE = {"u8": (0, 255), "i8": (-128, 127), "u16": (0, 65535), "i16": (-3276
              "usize": (0, 2 ** 64 - 1)}
 
 
+_DUKE = None
+
+
 class EvalW(T.Evaluator):
     """Pattern-matrix evaluation of writer code with the stream/pool/label primitives abstracted: records what would be written.
     `mode` fixes the outcome of the run-time questions: resolved (labels.get), wide (wide.contains), fits (try_from on a symbolic value),
     desc0 (first character of a dynamic constant's descriptor)."""
 
     def __init__(self, mode=None, **kw):
+        if _DUKE is not None:
+            # calls into private helpers of the writer are followed (a helper is just a piece of its caller)
+            kw.setdefault("inline", _inline_map(_DUKE))
+            kw.setdefault("max_inline", 3)
         super().__init__(**kw)
         self.mode = mode or {}
         self.writes = []       # (method name, value, node)
@@ -1110,10 +1182,12 @@ def r02_5_9(cx, R, S):
         by_key.setdefault(o["variant_key"], []).append(o)
     wex, wlays = cx.lay(wc, "w")
     prim_of = {}
-    for items in wlays.values():
-        for (_x, it) in _flat_items(items):
-            if it.get("i") in ("p", "align4", "ref", "rep") and it.get("node") is not None:
-                prim_of[id(it["node"])] = it
+    for b_ in duke.bodies:
+        if b_["key"].startswith(W) and b_["dk"] in ("Fn", "AssocFn") and b_.get("body") and U.has_stream_ops(b_["body"], "w"):
+            for items in cx.lay(b_, "w")[1].values():
+                for (_x, it) in _flat_items(items):
+                    if it.get("i") in ("p", "align4", "ref", "rep") and it.get("node") is not None:
+                        prim_of[id(it["node"])] = it
     static_arm = {}
     for items in wlays.values():
         for (_x, it) in _flat_items(items):
@@ -1153,6 +1227,9 @@ def r02_5_9(cx, R, S):
         mism = []
         if rvar != variant:
             mism.append("opcode %s0x%02x decodes to %s in the reader" % ("wide " if wide else "", op, rvar))
+        so = next((x for x in S["wide_forms"] if x["value"] == op), None) if wide else by_val.get(op)
+        if so is None or so["variant_key"] != variant.lower():
+            mism.append("JVMS: opcode %s0x%02x is %s" % ("wide " if wide else "", op, so["mnemonic"] if so else "undefined"))
         if implied is not None and not wide and ridx is not None and ridx != implied:
             mism.append("opcode 0x%02x implies local %s in the reader, the writer emits it for local %s" % (op, ridx, implied))
         if rops is None:
@@ -1175,13 +1252,15 @@ def r02_5_9(cx, R, S):
         if not R.anchor("R02.5", "arm for Instruction::%s" % vname, arm, sp=m["sp"]):
             continue
         sp = arm["sp"]
-        items = static_arm.get(id(arm), [])
-        has_if = any(it.get("i") in ("if", "match") for (_x, it) in _flat_items(items))
-        is_helper = len(items) == 1 and items[0].get("i") == "ref" and items[0]["name"] in ("if_helper", "goto_helper")
+        items = expand_helper_refs(cx, static_arm.get(id(arm), []))
+        has_loop = any(it.get("i") in ("rep", "loop") for (_x, it) in _flat_items(items))
         key = "encode:%s" % vname
         n_enc += 1
+        payload = [T.sym("p%d" % i) for i in range(nf)]
+        res0, ev0 = _run_instr(m, T.V(vname, *payload), mode={"fits": True})
+        is_helper = not has_loop and bool(ev0.helpers) and not ev0.writes and all(h[0] in ("if_helper", "goto_helper") for h in ev0.helpers)
         if is_helper:
-            res, ev = _run_instr(m, T.V(vname, T.sym("label")))
+            ev = ev0
             hs = ev.helpers
             ok = len(hs) == 1 and not ev.writes
             if not R.inst("R02.5", key + ":via-helper", ok, sp=sp, got=[h[0] for h in hs]):
@@ -1209,8 +1288,8 @@ def r02_5_9(cx, R, S):
             R.inst("R02.5", "jump-site:%s" % vname, good and ((hname == "if_helper") == vname.startswith("If")), sp=hnode.get("sp"),
                    expect="%s(%s, %s)" % (hname, *(exp or ("?", "?"))), got="%s(%s)" % (hname, ", ".join("0x%02x" % x for x in ops)))
             continue
-        if not has_if:
-            # straight-line arm: static layout, first byte constant
+        if has_loop:
+            # arm with a repetition (switch tables): static layout, first byte constant
             if not (items and items[0].get("i") == "p" and isinstance(items[0].get("const"), int)):
                 R.inst("R02.5", key, False, sp=sp, detail="arm does not start with a constant opcode byte", got=U.show(items))
                 continue
@@ -1291,7 +1370,18 @@ def r02_5_9(cx, R, S):
                             want, wt, form = [0x13], ["write_u8", "write_u16"], "ldc_w"
                         R.inst("R02.9", "form:Ldc:%s" % k2, ops == want and types == wt, sp=sp, expect=form, got=_writes_show(ev.writes))
         else:
-            R.unrecognised("R02.5", "write_code:Instruction::%s" % vname, "arm with an encoding choice the checker has no operand samples for", sp=sp)
+            # no operand-dependent form in the JVMS for this variant: every outcome of the run-time questions the arm asks must still be
+            # an encoding of this variant with the reader's operand layout
+            runs = [("", ev0)]
+            if "fits" in ev0.asked:
+                runs.append((":alt", _run_instr(m, T.V(vname, *payload), mode={"fits": False})[1]))
+            seqs = []
+            for suffix, ev in runs:
+                sig = [(nm, T.show(v)) for (nm, v, _n) in ev.writes]
+                if sig in seqs:
+                    continue
+                seqs.append(sig)
+                check_path(key + (suffix if len(seqs) > 1 else ""), vname, ev.writes, sp)
     R.inst("R02.5", "jump-sites", sorted(v for v in if_sites if if_sites[v][0] == "if_helper") ==
            sorted(v for v, _n in variants if v.startswith("If")), sp=m["sp"], nontrivial=False,
            expect="16 conditional branches through if_helper", got=len(if_sites))
@@ -1823,6 +1913,16 @@ def r02_6(cx, R, S):
 
 
 # ===================================================================================================== R02.7
+_INLINE = {}
+
+
+def _inline_map(duke):
+    """Bodies of the writer's own functions, for following calls into private helpers during partial evaluation."""
+    if id(duke) not in _INLINE:
+        _INLINE[id(duke)] = {b["key"]: b for b in duke.bodies if b["key"].startswith("duke::simple_class_writer") and b["dk"] in ("Fn", "AssocFn") and b.get("body")}
+    return _INLINE[id(duke)]
+
+
 class EvalKey(T.Evaluator):
     def __init__(self, keyval, **kw):
         super().__init__(**kw)
@@ -1848,34 +1948,25 @@ def r02_7(cx, R, S):
     if R.anchor("R02.7", "fn PoolWrite::put", put) and R.anchor("R02.7", "enum PoolEntry (writer)", variants):
         R.inst("R02.7", "entry-kinds", sorted(v for v, _n in variants) == sorted(spec_name.get(x, x) for x in S["pool_tags"]), sp=put["sp"],
                expect=sorted(S["pool_tags"]), got=sorted(v for v, _n in variants))
-        # the increment expression: a let whose value evaluates to 1 / 2 depending on the entry
-        inc_let = None
-        for n in H.walk(put["body"]):
-            if n.get("k") == "let" and "init" in n and n["pat"].get("k") == "bind" and H.peel(n["init"]).get("k") in ("if", "match"):
-                vals = {H.const_value(x) for x in H.walk(n["init"]) if x.get("k") == "lit"}
-                if {1, 2} <= vals:
-                    inc_let = n
-        if R.anchor("R02.7", "slot increment in PoolWrite::put", inc_let is not None, sp=put["sp"]):
+        # the increment: whatever is added to `count` (argument of the checked_add that is stored back), evaluated per entry kind
+        assigns = [n for n in H.walk(put["body"]) if n.get("k") == "assign" and H.place_root(n["l"])[1][-1:] == ["count"]]
+        adds = [x for a_ in assigns for x in H.walk(a_["r"]) if x.get("k") == "mcall" and x["name"] == "checked_add" and H.place_root(x["recv"])[1][-1:] == ["count"]]
+        inc_expr = None
+        if len(adds) == 1 and adds[0]["args"]:
+            inc_expr = adds[0]["args"][0]
+            l = H.local_of(inc_expr)
+            if l and H.let_init_of(put["body"], l[0]) is not None:
+                inc_expr = H.let_init_of(put["body"], l[0])
+        if R.anchor("R02.7", "slot increment in PoolWrite::put (argument of count.checked_add)", inc_expr is not None, sp=put["sp"]):
             for v, nf in variants:
-                ev = EvalKey(("st", v, {}))
-                # struct-like variant value: patterns `PoolEntry::Long { .. }` compare the variant name
-                ev.keyval = ("v", v, [])
+                ev = EvalKey(("v", v, []), inline=_inline_map(duke))
                 try:
-                    res = ev.ev(inc_let["init"], {})
+                    res = ev.ev(inc_expr, {})
                 except T.Return as r:
                     res = r.v
                 want = 2 if v in two else 1
-                R.inst("R02.7", "slots:%s" % v, res == ("i", want), sp=inc_let["sp"], expect=want, got=T.show(res))
-            inc_id = inc_let["pat"]["id"]
-            # self.count = self.count.checked_add(inc)..
-            assigns = [n for n in H.walk(put["body"]) if n.get("k") == "assign" and H.place_root(n["l"])[1][-1:] == ["count"]]
-            ok = False
-            if len(assigns) == 1:
-                calls = [x for x in H.walk(assigns[0]["r"]) if x.get("k") == "mcall" and x["name"] == "checked_add"]
-                ok = len(calls) == 1 and H.place_root(calls[0]["recv"])[1][-1:] == ["count"] and H.local_of(calls[0]["args"][0]) is not None and \
-                    H.local_of(calls[0]["args"][0])[0] == inc_id
-                # a failed checked_add must leave the function with an error (`?` on the context)
-                ok = ok and any(x.get("k") == "try" for x in H.walk(assigns[0]["r"]))
+                R.inst("R02.7", "slots:%s" % v, res == ("i", want), sp=inc_expr["sp"], expect=want, got=T.show(res))
+            ok = len(assigns) == 1 and any(x.get("k") == "try" for x in H.walk(assigns[0]["r"]))
             plain = [H.render(n) for n in H.walk(put["body"]) if (n.get("k") == "assignop" and H.place_root(n["l"])[1][-1:] == ["count"]) or
                      (n.get("k") == "bin" and n["op"] in ("+", "-") and any(H.place_root(s_)[1][-1:] == ["count"] for s_ in (n["l"], n["r"])))]
             R.inst("R02.7", "count:checked-growth", ok and not plain, sp=put["sp"], expect="self.count = self.count.checked_add(inc).<error on None>?",
@@ -2219,18 +2310,55 @@ def r02_labels_prims(cx, R, S):
     ws = duke.body("duke::ClassWrite::write_slice")
     if R.anchor("R02.1", "fn ClassWrite::write_slice", ws):
         ids = [H.pat_bindings(p)[0][0] if H.pat_bindings(p) else None for p in ws["params"]]
-        seq = []
-        for n in H.walk(ws["body"]):
-            if n.get("k") == "call" and (n.get("callee") or {}).get("r") == "local":
-                seq.append((n["callee"]["id"], n))
+        order = {id(n): i for i, n in enumerate(H.walk(ws["body"]))}
+        calls = {}
+        for n, ps in H.walk_with_parents(ws["body"]):
+            if n.get("k") == "call" and (n.get("callee") or {}).get("r") == "local" and n["callee"]["id"] in (ids[2], ids[3]):
+                calls.setdefault(n["callee"]["id"], []).append((n, ps))
         ok = False
-        if len(seq) == 2 and seq[0][0] == ids[2] and seq[1][0] == ids[3]:
-            a = H.peel(seq[0][1]["args"][1])
-            lenok = a.get("k") == "mcall" and a["name"] == "len" and H.local_of(a["recv"]) and H.local_of(a["recv"])[0] == ids[1]
-            fors = [n for n in H.walk(ws["body"]) if n.get("k") == "for"]
-            forok = len(fors) == 1 and H.local_of(fors[0]["iter"]) and H.local_of(fors[0]["iter"])[0] == ids[1] and any(x is seq[1][1] for x in H.walk(fors[0]["body"]))
-            ok = bool(lenok and forok)
-        R.inst("R02.1", "prim:write_slice=len-then-elements", ok, sp=ws["sp"], expect="put_size(self, slice.len())?; for v in slice { put_element(self, v)? }")
+        got = None
+        if len(calls.get(ids[2], [])) == 1 and len(calls.get(ids[3], [])) == 1:
+            (sz, szp), (el, elp) = calls[ids[2]][0], calls[ids[3]][0]
+            a_ = H.peel(sz["args"][1]) if len(sz["args"]) > 1 else {}
+            lenok = a_.get("k") == "mcall" and a_["name"] == "len" and H.local_of(a_["recv"]) and H.local_of(a_["recv"])[0] == ids[1]
+            # the element call runs once per element of `slice`, in order: inside `for .. in slice` or in the closure of an in-order,
+            # short-circuiting iterator consumer over slice.iter()
+            per_elem = False
+            for q in reversed(elp):
+                if q.get("k") == "for":
+                    r_ = H.recv_root(q["iter"])
+                    per_elem = bool(r_ and r_[0] == ids[1])
+                    break
+                if q.get("k") == "mcall" and q["name"] in ("try_for_each",) and any(x is el for a2 in q["args"] for x in H.walk(a2)):
+                    r_ = H.recv_root(q["recv"])
+                    adapters = []
+                    e_ = H.peel(q["recv"])
+                    while e_.get("k") == "mcall":
+                        adapters.append(e_["name"])
+                        e_ = H.peel(e_["recv"])
+                    per_elem = bool(r_ and r_[0] == ids[1]) and set(adapters) <= {"iter", "into_iter"}
+                    break
+            # neither result may be dropped: `?`, returned, or inspected for Err
+            def propagated(n, ps):
+                child = n
+                for q in reversed(ps):
+                    k = q.get("k")
+                    if k == "try" or k == "ret":
+                        return True
+                    if k == "semi" or (k == "let" and q["pat"].get("k") == "wild"):
+                        return False
+                    if k in ("letexpr", "match") and (q.get("init") is child or q.get("scrut") is child):
+                        return True       # the result is inspected (`if let Err(e) = .. { return Err(e) }`)
+                    if k == "closure":
+                        return True       # value of the closure: judged by the consumer (try_for_each checked above)
+                    if k == "block" and q.get("tail") is not child:
+                        return False
+                    child = q
+                return True               # tail value of the function
+            got = (bool(lenok), per_elem, propagated(sz, szp), propagated(el, elp), order[id(sz)] < order[id(el)])
+            ok = all(got)
+        R.inst("R02.1", "prim:write_slice=len-then-elements", ok, sp=ws["sp"], got=got,
+               expect="put_size(self, slice.len()) first, then put_element(self, v) for each element in order, errors propagated")
     imp = next((b for b in duke.bodies if b.get("name") == "write_u8_slice" and "ClassWrite" in (b.get("impl_trait") or "")), None)
     if R.anchor("R02.1", "impl ClassWrite for T: write_u8_slice", imp):
         calls = [n for n in H.walk(imp["body"]) if n.get("k") == "mcall" and n["name"] in ("write_all", "write")]
@@ -2376,8 +2504,7 @@ def r02_attr_sources(cx, R, S):
         rb, wb = cx.rfn(rn), cx.wfn(wn)
         if not (rb and wb):
             continue
-        ex, lays = cx.lay(wb, "w")
-        ab, aitems = attr_buffer(ex, lays)
+        ex, ab, aitems = attr_items(cx, wb)
         table, hdr, _rep = reader_dispatch(cx, rb)
         if aitems is None or table is None:
             continue
@@ -2390,7 +2517,7 @@ def r02_attr_sources(cx, R, S):
             name = em["name"] if isinstance(em["name"], str) else None
             if name == "BootstrapMethods":
                 continue       # assembled from the pool, not from a tree field
-            stmt = next((s_ for s_ in top if any(x is em["node"] for x in H.walk(s_))), None)
+            stmt = next((s_ for s_ in top if any(x is em["site"] for x in H.walk(s_))), None)
             if stmt is None:
                 continue
             wf = set()
